@@ -56,7 +56,7 @@ theorem chain_seg (P : BState → Nat → Prop) (hP : FrameClosed P) (S : BState
 the segment contract at the loop's level -/
 theorem loop_segs (P : BState → Nat → Prop) (hP : FrameClosed P) (S : BState → List Tok → Prop) (hS : FrameClosedS S) (rules : List BRule)
     (hok : ∀ r ∈ rules, RuleOK P r) (hseg : ∀ r ∈ rules, SegOK P S r) (maxNesting : Int) (endLine : Nat) :
-    ∀ (fuel line : Nat) (hasEmpty : Bool) (s s' : BState), s.lines.length = s.lineMax + 1 → endLine ≤ s.lineMax →
+    ∀ (fuel line : Nat) (hasEmpty : Bool) (s s' : BState), s.lineMax + 1 ≤ s.lines.length → endLine ≤ s.lineMax →
       P s endLine → blockLoop rules maxNesting endLine fuel line hasEmpty s = .ok s' →
       ∃ segs : List (List Tok), s'.tokens = s.tokens ++ segs.flatten ∧ ∀ g ∈ segs, S s g := by
   intro fuel
@@ -106,10 +106,10 @@ theorem loop_segs (P : BState → Nat → Prop) (hP : FrameClosed P) (S : BState
                     cases mm with
                     | true => rfl
                     | false => have := hmiss rfl; simp at this; omega
-                  have hlen2 : s2.lines.length = s2.lineMax + 1 := by rw [hfr2.1, hfr2.2.1]; exact hlen
+                  have hlen2 : s2.lineMax + 1 ≤ s2.lines.length := by rw [hfr2.1, hfr2.2.1]; exact hlen
                   have hend2 : endLine ≤ s2.lineMax := by rw [hfr2.2.1]; exact hend
                   have hSs : S s seg := hS _ _ _ (frameEq_symm (⟨rfl, rfl, rfl, rfl⟩ : s.FrameEq { s with line := line1 })) (hsegS hm)
-                  have fin : ∀ (l' : Nat) (he : Bool) (st : BState), st.tokens = s2.tokens → st.lines.length = st.lineMax + 1 →
+                  have fin : ∀ (l' : Nat) (he : Bool) (st : BState), st.tokens = s2.tokens → st.lineMax + 1 ≤ st.lines.length →
                       endLine ≤ st.lineMax → s2.FrameEq st →
                       blockLoop rules maxNesting endLine n l' he st = .ok s' →
                       ∃ segs : List (List Tok), s'.tokens = s.tokens ++ segs.flatten ∧ ∀ g ∈ segs, S s g := by
@@ -254,15 +254,15 @@ theorem segOK_heading (P) (codeOn : Bool) (ws : List Nat) : SegOK P WellSegS (ru
     · rw [h'] at h; cases h; rfl
     · rw [h'] at h; cases h
 
-theorem segOK_paragraph (terms : List BRule) (hin : ∀ t ∈ terms, SilentInert t) (ws : List Nat) :
-    SegOK TopCtx WellSegS (ruleParagraph terms ws) := by
+theorem segOK_paragraph (P : BState → Nat → Prop) (terms : List BRule) (hin : ∀ t ∈ terms, SilentInert t) (ws : List Nat) :
+    SegOK P WellSegS (ruleParagraph terms ws) := by
   refine ⟨?_, ?_⟩
   · intro s line endLine s' hc h
-    obtain ⟨n, c, h1, h2, h'⟩ := paragraph_shape terms hin ws s line endLine hc
+    obtain ⟨n, c, h1, h2, h'⟩ := paragraph_shape P terms hin ws s line endLine hc
     rw [h'] at h; cases h
     exact three_push (s0 := { s with parentType := "paragraph", line := n })
   · intro s line endLine s' hc h
-    obtain ⟨n, c, h1, h2, h'⟩ := paragraph_shape terms hin ws s line endLine hc
+    obtain ⟨n, c, h1, h2, h'⟩ := paragraph_shape P terms hin ws s line endLine hc
     rw [h'] at h; cases h
 
 theorem miniChain_segOK (c : MiniCfg) (ws : List Nat) : ∀ r ∈ miniChain c ws, SegOK TopCtx WellSegS r := by
@@ -281,7 +281,7 @@ theorem miniChain_segOK (c : MiniCfg) (ws : List Nat) : ∀ r ∈ miniChain c ws
   · split at hr
     · simp at hr; subst hr; exact segOK_heading _ _ _
     · cases hr
-  · subst hr; exact segOK_paragraph _ (miniTerminators_inert c ws) ws
+  · subst hr; exact segOK_paragraph _ _ (miniTerminators_inert c ws) ws
 
 /-- **C02.mini_wellformed** — for every source, every subset of the optional rules and every `maxNesting`, the
 block stream of the modelled parse is levelled from 0, ends at depth 0, is balanced, and builds a syntax tree -/
